@@ -361,6 +361,27 @@ func forwardCursor(c *core.Ctx, idx ssa.Value, site ssa.Instruction) (string, bo
 		}
 		ok := resetBefore(site, 2)
 		if !ok {
+			// … or the use itself sits behind a test that the cursor is not negative (`if cursor < 0 || … { return }`)
+			for _, g := range an.GuardsOf(site.Block()) {
+				bo, isB := g.Cond.(*ssa.BinOp)
+				if !isB {
+					continue
+				}
+				l, isL := bo.X.(*ssa.UnOp)
+				if !isL || l.Op != token.MUL || !k.addrIs(l.X) {
+					continue
+				}
+				z, isZ := constInt(bo.Y)
+				if !isZ {
+					continue
+				}
+				nonNeg := (bo.Op == token.LSS && z == 0 && !g.Polarity) || (bo.Op == token.GEQ && z == 0 && g.Polarity) || (bo.Op == token.GTR && z == -1 && g.Polarity) || (bo.Op == token.LEQ && z == -1 && !g.Polarity)
+				if nonNeg && noStoreBetween(k, g.If, site) {
+					ok = true
+				}
+			}
+		}
+		if !ok {
 			return "the cursor starts at -1 and is not reset under `cursor < 0` before this use", false
 		}
 	}
@@ -596,4 +617,13 @@ func foldConst(v ssa.Value) (int64, bool) {
 		}
 	}
 	return 0, false
+}
+
+// noStoreBetween: the cell is not written in the function between the test and the use (same function, the test
+// dominates the use, no store of the cell anywhere in it).
+func noStoreBetween(k cell, test *ssa.If, use ssa.Instruction) bool {
+	if test.Parent() != use.Parent() || !test.Block().Dominates(use.Block()) {
+		return false
+	}
+	return len(k.stores(use.Parent())) == 0
 }
